@@ -202,7 +202,7 @@ class C06Monitor(hist.Monitor):
             src = ws.get_entity(uuid.UUID(op["target"]))[0]
             new = eng.ws2.get_entity(uuid.UUID(op["uid"]))[0]
             if src is not None:
-                judge_cross_copy(rec, src, new, self.uids2, "copy_out")
+                judge_cross_copy(rec, src, new, set(self.uids2) | ({op["precopied"]} if op.get("precopied") else set()), "copy_out")
         # ---- global uniqueness, look-ups, shared types
         ents = all_entities(ws)
         seen = {}
